@@ -765,7 +765,119 @@ class Fn:
             for s in ss:
                 if site_bb not in self.reachable(0, cut_edges=[(b, s)]):
                     out.append((b, s))
+        if self._variant_tracking():
+            # an acyclic body that builds an enum on several paths and tests it after they join (`let Some(x) = helper()
+            # else ..` with the helper spliced in): paths that contradict the variant they built are not paths.
+            # Edges every *feasible* path takes:
+            have = set(out)
+            for b in sorted(r for r in self.reachable(0) if r != site_bb):
+                t = self.blocks[b]['term']
+                if t['k'] != 'switch':
+                    continue
+                ss = self.succs()[b]
+                if len(ss) < 2:
+                    continue
+                for s in ss:
+                    if (b, s) not in have and self._feasibly_reaches(site_bb) and not self._feasibly_reaches(site_bb, cut=(b, s)) \
+                            and self._feasibly_reaches(site_bb, must=(b, s)):
+                        out.append((b, s))
         return out
+
+    _VARIANT_INDEX = {'None': 0, 'Some': 1, 'Ok': 0, 'Err': 1}
+
+    def _variant_tracking(self):
+        """True when pruning by known enum variants applies: acyclic body, some plain local is assigned an Option / Result
+        aggregate and some discriminant of a plain local is switched on."""
+        if getattr(self, '_vt', None) is None:
+            ok = False
+            if self.n <= 400 and self.is_acyclic():
+                aggs = any(st['k'] == 'assign' and not st['pl']['p'] and st['rv']['k'] == 'agg' and st['rv'].get('variant') in self._VARIANT_INDEX
+                           for b in self.blocks for st in b['st'])
+                discrs = any(st['k'] == 'assign' and st['rv']['k'] == 'discr' and not st['rv']['pl']['p'] for b in self.blocks for st in b['st'])
+                ok = aggs and discrs
+            self._vt = ok
+            self._mut_borrowed = set()
+            for b in self.blocks:
+                for st in b['st']:
+                    if st['k'] == 'assign' and st['rv']['k'] in ('ref', 'rawptr') and st['rv'].get('mut') and not st['rv']['pl']['p']:
+                        self._mut_borrowed.add(st['rv']['pl']['l'])
+            self._feas_memo = {}
+        return self._vt
+
+    def _feasibly_reaches(self, goal, cut=None, must=None):
+        """Is there a path from entry to block `goal` (avoiding edge `cut`, passing edge `must`) that never takes a switch
+        edge contradicting the Option/Result variant the path itself assigned to the tested local?"""
+        key = (goal, cut, must)
+        if key in self._feas_memo:
+            return self._feas_memo[key]
+        succs = self.succs()
+        seen = set()
+        stack = [(0, frozenset(), frozenset(), must is None)]
+        found = False
+        while stack and not found:
+            b, known, dmap, passed = stack.pop()
+            if (b, known, dmap, passed) in seen:
+                continue
+            seen.add((b, known, dmap, passed))
+            if b == goal and passed:
+                found = True
+                break
+            if b == goal:
+                continue
+            kn, dm = dict(known), dict(dmap)
+            for st in self.blocks[b]['st']:
+                if st['k'] != 'assign':
+                    continue
+                pl, rv = st['pl'], st['rv']
+                if pl['p']:
+                    if pl['l'] in kn and not any(x['k'] == 'deref' for x in pl['p']):
+                        pass    # a field store does not change the variant
+                    continue
+                l = pl['l']
+                kn.pop(l, None)
+                dm.pop(l, None)
+                for d_, x_ in list(dm.items()):
+                    if x_ == l:
+                        dm.pop(d_)
+                if l in self._mut_borrowed:
+                    continue
+                if rv['k'] == 'agg' and rv.get('variant') in self._VARIANT_INDEX and rv.get('ak') == 'adt' and \
+                        rv.get('name', '').rsplit('::', 1)[-1] in ('Option', 'Result'):
+                    kn[l] = self._VARIANT_INDEX[rv['variant']]
+                elif rv['k'] == 'use' and rv['o']['k'] in ('copy', 'move') and not rv['o']['pl']['p'] and rv['o']['pl']['l'] in kn:
+                    kn[l] = kn[rv['o']['pl']['l']]
+                elif rv['k'] == 'discr' and not rv['pl']['p']:
+                    dm[l] = rv['pl']['l']
+            t = self.blocks[b]['term']
+            if t['k'] == 'call' and t.get('dest') and not t['dest']['p']:
+                kn.pop(t['dest']['l'], None)
+            edges = []
+            if t['k'] == 'switch' and t['d'].get('k') in ('copy', 'move') and not t['d']['pl']['p'] and t['d']['pl']['l'] in dm:
+                x = dm[t['d']['pl']['l']]
+                vals = {int(v): tg for v, tg in t['ts']}
+                if x in kn:
+                    edges = [(vals.get(kn[x], t['o']), kn)]
+                else:
+                    for v, tg in vals.items():
+                        k2 = dict(kn)
+                        if x not in self._mut_borrowed and v in (0, 1):
+                            k2[x] = v
+                        edges.append((tg, k2))
+                    if len(vals) == 1 and set(vals) <= {0, 1} and x not in self._mut_borrowed:
+                        k2 = dict(kn)
+                        k2[x] = 1 - next(iter(vals))
+                        edges.append((t['o'], k2))
+                    else:
+                        edges.append((t['o'], kn))
+            else:
+                edges = [(s_, kn) for s_ in succs[b]]
+            live = set(succs[b])
+            for s_, k2 in edges:
+                if s_ not in live or (cut is not None and (b, s_) == cut):
+                    continue
+                stack.append((s_, frozenset(k2.items()), frozenset(dm.items()), passed or (b, s_) == must))
+        self._feas_memo[key] = found
+        return found
 
     def facts_at(self, site_bb):
         """All atomic facts that hold whenever control reaches site_bb (via mandatory edges)."""
@@ -1015,6 +1127,7 @@ class Program:
         self.renamed = {}
         self.renamed_fields = []
         self.inlined = []
+        self.desugared = []
         self.fns = {}
         self.by_name = collections.defaultdict(list)
         self.consts = {}
@@ -1050,6 +1163,7 @@ class Program:
                         normalize.fold_const_switches(fd)
             self.renamed_fields = normalize.rename_private_fields(crates, table)
             self.inlined = normalize.inline_new_helpers(crates, table)
+            self.desugared = normalize.desugar_option_combinators(crates, table)
             self.inlined += [(c, [f]) for c, f in normalize.inline_local_closure_calls(crates, table)]
             for d in crates:
                 for fd in d['fns']:
